@@ -107,6 +107,9 @@ pub fn wrong_typed(f: Fmt, type_name: &str) -> Vec<Vec<u8>> {
             "9223372036854775808", "-9223372036854775809", "340282366920938463463374607431768211455", " 5 ", "5 5", "[5]", "5.0", "5e0", "\"5\"", "\"NaN\"",
             "NaN", "Infinity", "[]", "{}", "", "\"\\ud800\"", "\"unterminated", "01", "+5", "0x10", "1_000", "[1,2]", "[[3]]", "255", "256", "65536", "-129", "127", "128",
             "3.4028236e38", "1.7976931348623157e308", "1.7976931348623159e308", "4.9e-324", "2e-324", "\"ab\"", "\"abc d\"", "\"A@B\"",
+            // long decimal literals next to f32 rounding midpoints (reading at f64 width and narrowing rounds twice), exact f32 values, f64-resolution digits
+            "1.000000059604644775390626", "1.000000059604644775390625", "1.00000005960464477", "1.0000000596046448", "16777217.0", "16777217.000000001", "0.100000001490116119384765625",
+            "0.30000000000000004", "1.0000001192092896", "2.0000001192092896", "63.99999809265137", "-1.4999999403953552", "8388608.5", "8388609.5",
         ]
         .iter()
         .map(|s| s.as_bytes().to_vec())
@@ -118,11 +121,14 @@ pub fn wrong_typed(f: Fmt, type_name: &str) -> Vec<Vec<u8>> {
                 "()", "[5]", "[1,2]", "(1,2)", "(x:1,y:2)", "Point(x:1,y:2)", "300", "-1", "1e400", "1e39", "340282366920938463463374607431768211455", "-170141183460469231731687303715884105728",
                 "18446744073709551616", "0.1", "1e-400", "-0.0", "0", "255", "256", "65536", "\"ab\"", "\"abc d\"", "r\"raw\"", "r#\"ra\"w\"#", "5 // comment", "/* c */ 5", "",
                 "3.4028236e38", "1.7976931348623157e308", "(NaN)", "(inf)",
+                "1.000000059604644775390626", "1.000000059604644775390625", "1.00000005960464477", "1.0000000596046448", "16777217.0", "16777217.000000001", "0.100000001490116119384765625",
+                "0.30000000000000004", "1.0000001192092896", "2.0000001192092896", "63.99999809265137", "-1.4999999403953552", "8388608.5", "8388609.5",
             ]
             .iter()
             .map(|s| s.to_string())
             .collect();
-            for inner in ["5", "-5", "300", "NaN", "inf", "-inf", "\"abc\"", "\" x \"", "\"\"", "0.5", "1e400", "[1,2]", "(x:1,y:2)", "5,", "5, 6", "", "Other(5)", "0", "1", "64.0", "-1.5", "256", "\"ab\""] {
+            for inner in ["5", "-5", "300", "NaN", "inf", "-inf", "\"abc\"", "\" x \"", "\"\"", "0.5", "1e400", "[1,2]", "(x:1,y:2)", "5,", "5, 6", "", "Other(5)", "0", "1", "64.0", "-1.5", "256", "\"ab\"",
+                          "1.000000059604644775390626", "1.00000005960464477", "16777217.0", "63.99999809265137"] {
                 v.push(format!("{t}({inner})"));
                 v.push(format!("{t} ( {inner} )"));
             }
